@@ -117,7 +117,7 @@ TL_TASKS = ["detection2d", "tracking2d", "classification2d", "fp_validation2d"]
 
 
 def obligations(pid, tier):
-    maxlen = 40 if tier == "quick" else 44
+    maxlen = 40 if tier == "quick" else 48
     chunks = [(0, 6), (7, 10), (11, 14), (15, 18), (19, 22), (23, 26), (27, 31), (32, 36), (37, maxlen)]
     cases = []
     for lo, hi in chunks:
@@ -145,7 +145,7 @@ def meta(pid):
         "files": ["common/label.py"],
         "bounds": {"quick": "name: every length 0..40 (longest registered name: 38), ASCII code points symbolic; both "
                             "families, merge on/off, tasks detection/detection2d/classification2d",
-                   "thorough": "lengths 0..44, every evaluation task"},
+                   "thorough": "lengths 0..48, every evaluation task"},
         "outside": ["non-ASCII names / Unicode case folding", "names longer than the bound (necessarily unregistered)"],
         "stand_ins": ["SymStr (str subclass with symbolic characters)"],
         "assumptions": ["the name->label table is read from the converter's own registry for the lookup law; documented "
